@@ -15,7 +15,7 @@ func init() {
 }
 
 func gen(rng *rand.Rand, tier core.Tier, emit core.Emit) {
-	n := 150
+	n := 300
 	if tier == core.Thorough {
 		n = 1500
 	}
